@@ -87,9 +87,10 @@ func FailoverConfig(options ...Option) (config Config) {
 		clientContext := core.GetClientContext(ctx)
 		urls := clientContext.Client().URLs
 		next := urls[getIndex(&index, int64(len(urls)))]
-		if next == clientContext.URL && len(urls) > 1 {
+		if cur := clientContext.URL; len(urls) > 1 && cur != nil && (next == cur || next.String() == cur.String()) {
 			// the index is shared by all calls and may have come round to
-			// the server that has just failed this one
+			// the server that has just failed this one (a load balancer may
+			// have installed its own URL value for it: compare what it says)
 			next = urls[getIndex(&index, int64(len(urls)))]
 		}
 		clientContext.URL = next
